@@ -3,8 +3,9 @@
    Quantification: every execution layer [exec], genesis [g], proposer key [k], every chain [C] with
    ChainValid (the conclusion of C01: consecutive heights from the initial height, hash links, times
    non-decreasing, data hash = commitment of the txs, app hash = root after all earlier blocks, signed by
-   the proposer), every history [h] of header events, data events (any order, any multiplicity, any
-   DA tag — both ingress paths only append events) and clean restarts at any point. *)
+   the proposer with signer = (Pub k, Addr k)), every history [h] of header events, data events (any
+   order, any multiplicity, any DA tag — both ingress paths only append events) and clean restarts at
+   any point.  Model = the code after the repairs f41125c, 5877669, 3873d52. *)
 From Coq Require Import String NArith ZArith List Bool.
 From Verif Require Import Base.KV Base.Keys Model.Types Model.Syncer Proofs.SyncerProofs.
 Import ListNotations.
@@ -24,17 +25,18 @@ Theorem C02_safety_full : forall exec g k C h,
 Proof. exact safety. Qed.
 Print Assumptions C02_safety_full.
 
-(* the chain height never decreases: a longer history has applied at least as many blocks *)
+(* the chain height never decreases: a longer history has applied at least as many blocks
+   (proved for every history, crashes included) *)
 Theorem C02_monotone_full : forall exec g k C h1 h2,
-  ChainValid exec g k C -> Forall (item_in C) (h1 ++ h2) -> forallb is_clean (h1 ++ h2) = true ->
+  ChainValid exec g k C -> Forall (item_in C) (h1 ++ h2) ->
   exists j1 j2, (j1 <= j2)%nat /\ synced_to exec g C (run exec g h1) j1 /\ synced_to exec g C (run exec g (h1 ++ h2)) j2.
 Proof. exact monotone. Qed.
 Print Assumptions C02_monotone_full.
 
-(* completeness AS WORDED IS FALSE of the code (F2): there is a valid chain (two blocks with the same
-   non-empty transaction list) and a history delivering the header and the data of every block up to
-   m after which the node is below height initial + m - 1 — the second data event is dropped as seen
-   because the seen-set is keyed by the commitment of the transactions only (sync.go:88, 109) *)
+(* completeness AS WORDED IS FALSE of the code (F2, still open): there is a valid chain (two blocks
+   with the same non-empty transaction list) and a history delivering the header and the data of every
+   block up to m after which the node is below height initial + m - 1 — the second data event is dropped
+   as seen because the seen-set is keyed by the commitment of the transactions only (sync.go) *)
 Theorem C02_complete_refuted :
   exists exec g k C h m,
     ChainValid exec g k C /\ Forall (item_in C) h /\ forallb is_clean h = true /\ (m <= length C)%nat /\
@@ -44,6 +46,24 @@ Theorem C02_complete_refuted :
 Proof. exact complete_refuted. Qed.
 Print Assumptions C02_complete_refuted.
 
+(* completeness UNDER THE GUARD "the non-empty transaction lists of C are pairwise distinct"
+   (decidable: distinct_commitmentsb C = true): if the history contains the header of every block up to
+   m and the data of every non-empty one, in any order, with any duplication and restarts, the node is at
+   height >= initial + m - 1.  Together with C02_safety_full: it holds exactly the proposer's blocks,
+   transactions and state roots at every such height. *)
+Theorem C02_complete_partial : forall exec g k C h m,
+  ChainValid exec g k C -> Forall (item_in C) h -> forallb is_clean h = true ->
+  distinct_commitmentsb C = true -> (m <= length C)%nat ->
+  (forall i b, (i < m)%nat -> nth_error C i = Some b -> header_delivered h b) ->
+  (forall i b, (i < m)%nat -> nth_error C i = Some b -> d_txs (snd b) <> [] -> data_delivered h b) ->
+  g_initial g + N.of_nat m - 1 <= d_height (n_disk (run exec g h)).
+Proof. exact complete_partial. Qed.
+Print Assumptions C02_complete_partial.
+
+(* the refutation witness violates exactly that guard *)
+Example f2_outside_guard : distinct_commitmentsb f2_chain = false.
+Proof. exact complete_refuted_guard. Qed.
+
 (* ---- non-vacuity: a 6-block chain (initial height 5) with a run of empty blocks, delivered in reverse
    with duplicates, a data event for an empty block, and a clean restart in the middle ------------- *)
 Definition ex6 := ex_chain 5 [([], 100%Z); ([1; 2], 100%Z); ([], 103%Z); ([], 103%Z); ([3], 104%Z); ([4], 110%Z)].
@@ -51,8 +71,8 @@ Definition ex6_hist :=
   [ evh ex6 5 9; evd ex6 5 9; evh ex6 4 2; evd ex6 4 2; evd ex6 4 3; evh ex6 3 1; IRestart; evh ex6 2 1; evd ex6 2 1;
     evd ex6 1 7; evh ex6 1 7; evh ex6 1 8; evh ex6 0 0; evh ex6 5 9 ].
 
-Example ex6_valid : ChainValid ex_exec (ex_g 5) 1 ex6.
-Proof. chain_valid. Qed.
+Example ex6_valid : ChainValid ex_exec (ex_g 5) 1 ex6 /\ distinct_commitmentsb ex6 = true.
+Proof. split; [chain_valid|vm_compute; reflexivity]. Qed.
 Example ex6_items : Forall (item_in ex6) ex6_hist /\ forallb is_clean ex6_hist = true.
 Proof. split; [repeat constructor; cbn; try exact I; eexists; solve_in|reflexivity]. Qed.
 Example ex6_result :
